@@ -11,7 +11,7 @@ PROPERTY = "C02"
 LEVEL = "exploration"
 DEADLINE = 180
 RULE = ("cases = call-DAG descriptions from vlib.daggen (<=6 probe functions; nullary and tuple-output functions, "
-        "shared roots, consistent defaults, bound values incl. on parameters naming an upstream output, parameter "
+        "shared roots, consistent defaults, functions returning None / 0 / False / '' / [] (falsy intermediates), bound values incl. on parameters naming an upstream output, parameter "
         "renames) from VERIF_SEED, plus all 3-node DAGs over a 4-name alphabet in thorough; for every output and "
         "several keyword sets (root-only, defaults omitted, intermediates supplied, every arg_combinations cut) the "
         "four call forms are compared with the reference evaluator (value, call multiset, call order, full_output "
@@ -58,7 +58,7 @@ def _three_node():
 
 def cases_of(desc):
     if desc["kind"] == "gen":
-        return [(i, daggen.case_from_seed(desc["seed"], i)) for i in range(desc["start"], desc["start"] + desc["n"])]
+        return [(i, daggen.case_from_seed(desc["seed"], i, p_falsy=0.3 if i % 2 else 0.0)) for i in range(desc["start"], desc["start"] + desc["n"])]
     if desc["kind"] == "literal":
         return [(0, desc["case"])]
     ex = _three_node()
@@ -301,8 +301,8 @@ def finalize(agg, tier, seed):
     c = agg.counters
     if c.get("calls_compared", 0) < 10000:
         floors.append(f"only {c.get('calls_compared', 0)} calls compared (< 10000)")
-    for cl in ["tuple_out", "bound_over_output", "nullary", "renames", "shared_node_fanout>=2"]:
-        if agg.classes.get(cl, 0) < 100:
+    for cl in ["tuple_out", "bound_over_output", "nullary", "renames", "shared_node_fanout>=2", "falsy_result_shared"]:
+        if agg.classes.get(cl, 0) < (50 if cl == "falsy_result_shared" else 100):
             floors.append(f"class {cl} in only {agg.classes.get(cl, 0)} cases (< 100)")
     if c.get("arg_combinations_exercised", 0) < 1000:
         floors.append("fewer than 1000 arg_combinations exercised")
